@@ -140,6 +140,9 @@ func (a ArgumentConditions) Validate() []string {
 		if condition.Argument < 0 || condition.Argument > 5 {
 			problems = append(problems, fmt.Sprintf("argument must be between 0 and 5 (inclusive), but is %v", condition.Argument))
 		}
+		if !condition.Operation.valid() {
+			problems = append(problems, fmt.Sprintf("invalid operation: %v", condition.Operation))
+		}
 	}
 	return problems
 }
@@ -181,6 +184,16 @@ func (o *Operation) Unpack(s string) error {
 	}
 
 	return fmt.Errorf("invalid operation: %v", s)
+}
+
+// valid returns true if the operation is one of Operations.
+func (o Operation) valid() bool {
+	for _, operation := range Operations {
+		if o == operation {
+			return true
+		}
+	}
+	return false
 }
 
 // Validate validates that the configuration has both a default action and a
